@@ -232,6 +232,9 @@ func (r *refReader) bytes(field string) []byte {
 		return nil
 	}
 	if n > uint64(len(r.b)) {
+		if n-uint64(len(r.b)) > 1<<20 && n <= 1<<48 {
+			lastMidrange = true
+		}
 		r.fail(field, "short read")
 		return nil
 	}
@@ -240,8 +243,15 @@ func (r *refReader) bytes(field string) []byte {
 	return x
 }
 
+// lastMidrange: the last refDecodeInto met a byte-string length that exceeds what is left by more than 1 MiB
+// without exceeding runtime.maxAlloc — a decoder that allocates from the length before checking it would reserve
+// that much (and the process would die of "out of memory" rather than panic); such inputs are not handed to the
+// real decoder.
+var lastMidrange bool
+
 // refDecodeInto decodes b into v (fields accumulate as in the reused record). Unknown tags are skipped.
 func refDecodeInto(v *leveldb.VerifRecord, b []byte) (field, why string, ok bool) {
+	lastMidrange = false
 	r := &refReader{b: b}
 	for {
 		tag := r.uv("field-header", true)
@@ -580,10 +590,11 @@ func checkEncode(v *leveldb.VerifRecord) (msg string, kcase string, enc []byte) 
 	case pan != "":
 		return "", fmt.Sprintf("KREnc %s None", coqRec(&full)), nil
 	}
+	k := fmt.Sprintf("KREnc %s (Some %s)", coqRec(&full), vlib.CoqHex(b))
 	if !bytes.Equal(b, ref) {
-		return fmt.Sprintf("encode wrote %x, the documented format is %x", b, ref), "", nil
+		return fmt.Sprintf("encode wrote %x, the documented format is %x", b, ref), k, nil
 	}
-	return "", fmt.Sprintf("KREnc %s (Some %s)", coqRec(&full), vlib.CoqHex(b)), b
+	return "", k, b
 }
 
 func inRange(v *leveldb.VerifRecord) bool {
@@ -1082,42 +1093,66 @@ func utilRange(r *vlib.RNG) util.Range {
 
 // ---------------------------------------------------------------- driver
 
-// recordChecks runs (P) and collects (K) for the record codec; returns the K cases.
-func recordChecks(root *vlib.RNG, res *vlib.Result, thorough bool) []string {
-	nEnc, nDec, nMan, nReal := 160, 420, 70, 8
+// recordChecks runs (P) and collects (K) for the record codec and for crafted manifests (no DB involved); returns
+// the K cases and the number of (P) failures.
+func recordChecks(root *vlib.RNG, res *vlib.Result, thorough bool) (cases []string, nviol int) {
+	nEnc, nDec, nMan := 160, 420, 70
 	if thorough {
-		nEnc, nDec, nMan, nReal = 3000, 12000, 1500, 60
+		nEnc, nDec, nMan = 3000, 12000, 1500
 	}
-	kEnc, kDec, kMan, kReal := 110, 330, 60, 14
-	var cases []string
-	nviol := 0
+	kEnc, kDec, kMan := 110, 330, 60
 	fail := func(msg string, rp recReplay) {
 		nviol++
 		if nviol <= 4 {
 			rp.Desc = msg
-			res.Violate("manifest record codec: "+msg, map[string]interface{}{"case": rp})
+			res.Violate("manifest record codec: "+msg, rp)
 		}
 	}
 	r := root.Fork()
-	var valid [][]byte
+	var valid, validIn [][]byte
 	// (i) encode
 	for i := 0; i < nEnc; i++ {
 		v := genRecord(r, i%3 != 0)
 		msg, k, b := checkEncode(v)
 		res.Eval(fmt.Sprintf("enc/%d/%d/%d/%d/%d", v.Has, len(v.CompPtrs), len(v.Added), len(v.Deleted), len(b)), len(v.Added)+len(v.Deleted)+len(v.CompPtrs) > 0)
 		res.Count("record_encode", 1)
+		if k != "" && i < kEnc && len(k) < 6000 {
+			cases = append(cases, k)
+		}
 		if msg != "" {
 			fail(msg, recReplay{What: "record-encode", Rec: v})
 			continue
 		}
-		if k != "" && i < kEnc && len(k) < 6000 {
-			cases = append(cases, k)
+		// the three resets: list and its bit cleared, everything else untouched
+		{
+			c, a, d := r.Bool(), r.Bool(), r.Bool()
+			before := leveldb.VerifRecordReset(v, false, false, false)
+			after := leveldb.VerifRecordReset(v, c, a, d)
+			want := *before
+			if c {
+				want.Has &^= 1 << 5
+				want.CompPtrs = nil
+			}
+			if a {
+				want.Has &^= 1 << 7
+				want.Added = nil
+			}
+			if d {
+				want.Has &^= 1 << 6
+				want.Deleted = nil
+			}
+			if !recEqual(after, &want) {
+				fail(fmt.Sprintf("reset(compPtrs=%v, added=%v, deleted=%v) of %+v gave %+v", c, a, d, *before, *after), recReplay{What: "record-encode", Rec: v})
+			}
 		}
 		if b == nil {
 			res.Count("record_encode_panics_on_negative", 1)
 			continue
 		}
 		valid = append(valid, b)
+		if inRange(v) {
+			validIn = append(validIn, b)
+		}
 		// round trip through the real decoder
 		kind, f, w, pan, back, _ := decOutcome(b)
 		_, has, _, _ := leveldb.VerifRecordEncode(v)
@@ -1131,6 +1166,11 @@ func recordChecks(root *vlib.RNG, res *vlib.Result, thorough bool) []string {
 	// (ii) decode
 	nd := 0
 	emit := func(b []byte, always bool) {
+		refDecodeInto(&leveldb.VerifRecord{}, b)
+		if lastMidrange {
+			res.Count("record_decode_skipped_midrange_length", 1)
+			return
+		}
 		msg, k := checkDecode(b)
 		res.Count("record_decode", 1)
 		res.Eval(fmt.Sprintf("dec/%x", b), len(b) > 2)
@@ -1145,6 +1185,9 @@ func recordChecks(root *vlib.RNG, res *vlib.Result, thorough bool) []string {
 	for _, b := range directedDecode {
 		emit(b, true)
 	}
+	if nviol > 0 { // the directed inputs already fail: stop here, with their replay files
+		return cases, nviol
+	}
 	for i := 0; i < nDec && len(valid) > 0; i++ {
 		b := valid[r.Intn(len(valid))]
 		switch r.Pick(2, 6, 2) {
@@ -1157,8 +1200,8 @@ func recordChecks(root *vlib.RNG, res *vlib.Result, thorough bool) []string {
 		}
 	}
 	// every proper prefix of a few encodings: clean cuts succeed with fewer fields, the others are short reads
-	for i := 0; i < 6 && i < len(valid); i++ {
-		b := valid[r.Intn(len(valid))]
+	for i := 0; i < 6 && i < len(validIn); i++ {
+		b := validIn[r.Intn(len(validIn))]
 		if len(b) > 120 {
 			continue
 		}
@@ -1224,13 +1267,31 @@ func recordChecks(root *vlib.RNG, res *vlib.Result, thorough bool) []string {
 		stor.Close()
 		if pan != "" {
 			res.ViolateKnown("a manifest record naming level 2^62-1 (06 ff ff ff ff ff ff ff ff 3f 07) makes session.recover panic in versionStaging.getScratch: "+pan,
-				map[string]interface{}{"case": recReplay{What: "manifest-huge-level", Recs: []string{hex.EncodeToString(recs[0]), hex.EncodeToString(recs[1])}, Strict: false, Cmp: "leveldb.BytewiseComparator"}},
+				recReplay{What: "manifest-huge-level", Recs: []string{hex.EncodeToString(recs[0]), hex.EncodeToString(recs[1])}, Strict: false, Cmp: "leveldb.BytewiseComparator"},
 				"manifest-huge-level")
 		} else {
 			res.Count("manifest_huge_level_not_reproduced", 1)
 		}
 	}
-	// (iii) real manifests
+	res.Count("kr_codec_cases", len(cases))
+	return cases, nviol
+}
+
+// realManifestChecks: (P) and (K) on manifests of real DBs (see realManifests).
+func realManifestChecks(root *vlib.RNG, res *vlib.Result, thorough bool) (cases []string) {
+	nReal, kReal := 8, 14
+	if thorough {
+		nReal, kReal = 60, 40
+	}
+	nviol := 0
+	fail := func(msg string, rp recReplay) {
+		nviol++
+		if nviol <= 4 {
+			rp.Desc = msg
+			res.Violate("manifest replay: "+msg, rp)
+		}
+	}
+	r := root.Fork()
 	nr := 0
 	for i := 0; i < nReal; i++ {
 		cs := realManifests(r.Fork(), res, 60000, fail)
@@ -1241,7 +1302,6 @@ func recordChecks(root *vlib.RNG, res *vlib.Result, thorough bool) []string {
 			}
 		}
 	}
-	res.Count("kr_cases", len(cases))
 	res.Count("kr_real_manifest_cases", nr)
 	return cases
 }
